@@ -298,8 +298,8 @@ Section ImportProps.
                   = Some (TAlias (word (array_word safe is_builtin tname map_type [] e) false true))
     | OEnum => lookup (unesc (safe n)) (import doc) = Some (TAlias (word string_word false false))
     | OPrim ty fmt =>
-        is_builtin (prim_word map_type ty fmt) = true ->
-        lookup (unesc (safe n)) (import doc) = Some (TAlias (word (prim_word map_type ty fmt) false false))
+        is_builtin (map_type ty fmt) = true ->
+        lookup (unesc (safe n)) (import doc) = Some (TAlias (word (map_type ty fmt) false false))
     | OObject _ _ => True
     end.
   Proof.
